@@ -36,6 +36,11 @@ def runLine (line : String) : Driver.Result :=
   | ["jlbad", _, what, run] => Driver.JlCase.runBad what run
   | ["jlkeep", _, what, a, b] => Driver.JlCase.runKeep what a b
   | ["getter", _, row, name, key, ext, impl] => Driver.PathCase.runGetter row name key ext impl
+  | ["faultaccept", _, line, cut, how, impl] =>
+    -- C16: a fragment delivered before a read failure is not a line of the input
+    if impl.startsWith "ok" then ⟨"P", s!"faultaccept {line} cut={cut} {how}: impl [{impl}] violates C16: key=accepted-fragment-of-a-failed-read"⟩
+    else if impl.startsWith "panic" then ⟨"P", s!"faultaccept {line} cut={cut}: {impl} violates C16: key=panic"⟩
+    else ⟨"S", ""⟩
   | ["imp", prop, f, ty, src, ext, impl] => Driver.TypedCase.runImp prop f ty src ext impl
   | ["typed", _, f, ty, src, ext, w, b1, b2] => Driver.TypedCase.runTyped f ty src ext w b1 b2
   | ["twice", _, zone, ti, to, line, ext, first, second] => Driver.TypedCase.runTwice zone ti to line ext first second ""
